@@ -27,8 +27,10 @@ Definition collect_vertex (pts : list (Q * Q)) : list (Q * Q) :=
 Definition vectorize_points (pc pe pv : list (Q * Q)) : list (Q * Q) := pc ++ collect_edge pe ++ collect_vertex pv.
 Definition vectorize_weights (wc we wv : list Q) : list Q := wc ++ we ++ wv.
 
-Definition test_pt (p : qpoint) : Q * Q := (q_t0 p, q_t1 p).
-Definition trial_pt (p : qpoint) : Q * Q := (q_r0 p, q_r1 p).
+(* Qred only normalises the representation of the rational (keeps vm_compute fast); the value is unchanged *)
+Definition test_pt (p : qpoint) : Q * Q := (Qred (q_t0 p), Qred (q_t1 p)).
+Definition trial_pt (p : qpoint) : Q * Q := (Qred (q_r0 p), Qred (q_r1 p)).
+Definition weight_of (p : qpoint) : Q := Qred (q_w p).
 
 (* __init__: rows of the adjacency tables whose elements lie in the supports; coincident elements *)
 Definition sup (s : list bool) (e : nat) : bool := nth e s false.
@@ -62,6 +64,6 @@ Definition rule_arrays (order : Z) : option (list (Q * Q) * list (Q * Q) * list 
   | Some rc, Some re, Some rv =>
     Some (vectorize_points (map test_pt rc) (map test_pt re) (map test_pt rv),
           vectorize_points (map trial_pt rc) (map trial_pt re) (map trial_pt rv),
-          vectorize_weights (map q_w rc) (map q_w re) (map q_w rv))
+          vectorize_weights (map weight_of rc) (map weight_of re) (map weight_of rv))
   | _, _, _ => None
   end.
